@@ -317,6 +317,14 @@ func (c *Ctx) CountersWithPrefix(prefix string) map[string]int {
 
 func (c *Ctx) IsShard() bool { return c.shard >= 0 }
 
+// ShardIndex is the number of this worker (0 in an unsharded run).
+func (c *Ctx) ShardIndex() int {
+	if c.shard < 0 {
+		return 0
+	}
+	return c.shard
+}
+
 // Mine tells whether case i belongs to this process.
 func (c *Ctx) Mine(i int) bool { return c.shard < 0 || i%c.shards == c.shard }
 
